@@ -41,11 +41,41 @@ Fixpoint hamming (a b : list N) : nat :=
 
 Definition weight (e : list N) : nat := length (filter (fun x => negb (x =? 0)) e).
 
+Lemma xorl_length a : forall b, length a = length b -> length (xorl a b) = length a.
+Proof. induction a as [|x a IH]; intros [|y b] H; cbn in *; try lia. rewrite IH; lia. Qed.
+
+Lemma xorl_cancel a : forall b, length a = length b -> xorl a (xorl a b) = b.
+Proof.
+  induction a as [|x a IH]; intros [|y b] H; cbn [length] in H; try (exfalso; lia); cbn [xorl].
+  - reflexivity.
+  - rewrite IH by lia. f_equal. rewrite <- N.lxor_assoc, N.lxor_nilpotent. apply N.lxor_0_l.
+Qed.
+
+Lemma xorl_lt32 a : forall b, Forall (fun x => x < 32) a -> Forall (fun x => x < 32) b ->
+  Forall (fun x => x < 32) (xorl a b).
+Proof.
+  induction a as [|x a IH]; intros [|y b] Ha Hb; cbn [xorl]; try constructor.
+  - inversion Ha; inversion Hb; subst. apply (lxor_lt_pow2 x y 5); assumption.
+  - inversion Ha; inversion Hb; subst. apply IH; assumption.
+Qed.
+
+Lemma weight_xorl a : forall b, length a = length b -> weight (xorl a b) = hamming a b.
+Proof.
+  unfold weight. induction a as [|x a IH]; intros [|y b] H; cbn [length] in H; try (exfalso; lia); cbn [xorl hamming filter].
+  - reflexivity.
+  - rewrite <- IH by lia. destruct (N.eqb_spec x y) as [->|Hne].
+    + rewrite N.lxor_nilpotent. reflexivity.
+    + destruct (N.eqb_spec (N.lxor x y) 0) as [E|E]; [apply N.lxor_eq in E; contradiction | reflexivity].
+Qed.
+
 (* ---------- GF(2)-linearity of the step (needs only the shape of the masks) ---------- *)
 Section Lin2.
 Variable p : pm_params.
 Hypothesis Hwf : pm_wf p = true.
 Hypothesis Hbits : pm_bits p = true.
+
+Lemma lin_pointwise f g : (forall v, f v = g v) -> lin g -> lin f.
+Proof. intros E [G0 Ga]. split; [rewrite E; exact G0 | intros a b; rewrite !E; apply Ga]. Qed.
 
 Lemma lin_feedback gens f : forallb (fun mg : N * N => fst mg =? 2 ^ N.log2 (fst mg)) gens = true ->
   lin f -> lin (fun v => feedback gens (f v) 0).
@@ -53,14 +83,10 @@ Proof.
   intros Hg Hf. induction gens as [|[m g] t IH]; cbn [feedback].
   - apply lin_zero.
   - cbn [forallb fst] in Hg. apply andb_true_iff in Hg as [Hm Ht]. apply N.eqb_eq in Hm.
-    assert (E : forall v, feedback t (f v) (if 0 <? N.land (f v) m then N.lxor 0 g else 0) =
-                          N.lxor (if 0 <? N.land (f v) m then g else 0) (feedback t (f v) 0)).
-    { intros v. rewrite feedback_xor. destruct (0 <? N.land (f v) m); rewrite ?N.lxor_0_l; reflexivity. }
-    destruct (IH Ht) as [I0 Ia]. rewrite Hm.
-    pose proof (lin_comp _ _ (lin_bitcond (N.log2 m) g) Hf) as [B0 Ba]. cbv beta in *.
-    split.
-    + rewrite E. rewrite Hm. rewrite B0, I0. reflexivity.
-    + intros a b. rewrite !E. rewrite Hm. rewrite Ba, Ia. xor_ac.
+    apply (lin_pointwise _ (fun v => N.lxor (if 0 <? N.land (f v) (2 ^ N.log2 m) then g else 0) (feedback t (f v) 0))).
+    + intros v. rewrite <- Hm. rewrite feedback_xor. destruct (0 <? N.land (f v) m); rewrite ?N.lxor_0_l; reflexivity.
+    + apply lin_xor; [|apply IH; exact Ht].
+      apply (lin_comp _ _ (lin_bitcond (N.log2 m) g) Hf).
 Qed.
 
 Lemma lin_T : lin (Tstep p).
@@ -98,33 +124,6 @@ Proof.
   - cbn [xorl pm_fold fold_left]. rewrite step_lin. apply IH. lia.
 Qed.
 
-Lemma xorl_length a : forall b, length a = length b -> length (xorl a b) = length a.
-Proof. induction a as [|x a IH]; intros [|y b] H; cbn in *; try lia. rewrite IH; lia. Qed.
-
-Lemma xorl_cancel a : forall b, length a = length b -> xorl a (xorl a b) = b.
-Proof.
-  induction a as [|x a IH]; intros [|y b] H; cbn [length] in H; try (exfalso; lia); cbn [xorl].
-  - reflexivity.
-  - rewrite IH by lia. f_equal. rewrite <- N.lxor_assoc, N.lxor_nilpotent. apply N.lxor_0_l.
-Qed.
-
-Lemma xorl_lt32 a : forall b, Forall (fun x => x < 32) a -> Forall (fun x => x < 32) b ->
-  Forall (fun x => x < 32) (xorl a b).
-Proof.
-  induction a as [|x a IH]; intros [|y b] Ha Hb; cbn [xorl]; try constructor.
-  - inversion Ha; inversion Hb; subst. apply (lxor_lt_pow2 x y 5); assumption.
-  - inversion Ha; inversion Hb; subst. apply IH; assumption.
-Qed.
-
-Lemma weight_xorl a : forall b, length a = length b -> weight (xorl a b) = hamming a b.
-Proof.
-  unfold weight. induction a as [|x a IH]; intros [|y b] H; cbn [length] in H; try (exfalso; lia); cbn [xorl hamming filter].
-  - reflexivity.
-  - rewrite <- IH by lia. destruct (N.eqb_spec x y) as [->|Hne].
-    + rewrite N.lxor_nilpotent. reflexivity.
-    + destruct (N.eqb_spec (N.lxor x y) 0) as [E|E]; [apply N.lxor_eq in E; contradiction | reflexivity].
-Qed.
-
 (* two inputs of equal length differ in the register exactly by the syndrome of their difference *)
 Lemma fold_diff S v v' : length v = length v' ->
   pm_fold p S v' = N.lxor (pm_fold p S v) (pm_fold p 0 (xorl v v')).
@@ -159,11 +158,11 @@ Proof.
   - apply Nat.ltb_lt. exact H7.
 Qed.
 
-Lemma Hwf : pm_wf p = true. Proof. apply ok_split. Qed.
-Lemma Hbits : pm_bits p = true. Proof. apply ok_split. Qed.
-Lemma Hlaws : laws_ok G = true. Proof. apply ok_split. Qed.
-Lemma Hwidth : pm_width p = g_width G. Proof. apply ok_split. Qed.
-Lemma valid_1 : valid 1. Proof. apply ok_split. Qed.
+Lemma Hwf : pm_wf p = true. Proof. destruct ok_split as (H & _). exact H. Qed.
+Lemma Hbits : pm_bits p = true. Proof. destruct ok_split as (_ & H & _). exact H. Qed.
+Lemma Hlaws : laws_ok G = true. Proof. destruct ok_split as (_ & _ & H & _). exact H. Qed.
+Lemma Hwidth : pm_width p = g_width G. Proof. destruct ok_split as (_ & _ & _ & H & _). exact H. Qed.
+Lemma valid_1 : valid 1. Proof. destruct ok_split as (_ & _ & _ & _ & H & _). exact H. Qed.
 
 Lemma T_valid v : valid (T v).
 Proof.
@@ -178,7 +177,7 @@ Proof.
   - apply (lin_comp _ _ (lin_T p Hbits) (lin_smul G a)).
   - apply (lin_comp _ _ (lin_smul G a) (lin_T p Hbits)).
   - apply H. exact Ha.
-  - rewrite <- (width_nat G). exact Hv.
+  - rewrite <- (width_nat G Hlaws). exact Hv.
 Qed.
 
 Lemma T_glin : glin G T.
@@ -203,15 +202,16 @@ Proof.
   - apply lin_iter. apply (lin_T p Hbits).
   - apply lin_id.
   - exact H.
-  - rewrite <- (width_nat G). exact Hv.
+  - rewrite <- (width_nat G Hlaws). exact Hv.
 Qed.
 
 Lemma T_inj0 v : valid v -> T v = 0 -> v = 0.
 Proof.
-  intros Hv E. rewrite <- (T_ord v Hv).
+  intros Hv E. pose proof (T_ord v Hv) as Hord. pose proof (lin_T p Hbits) as HT.
   destruct ok_split as (_ & _ & _ & _ & _ & _ & Ho & _).
-  destruct ord as [|k]; [lia|]. cbn [iter]. rewrite E.
-  apply (lin_0 _ (lin_iter k T (lin_T p Hbits))).
+  revert Hord Ho. generalize ord. intros [|k] Hord Ho; [lia|].
+  cbn [iter] in Hord. rewrite E in Hord. rewrite <- Hord.
+  apply (lin_0 _ (lin_iter k T HT)).
 Qed.
 
 (* ---------- the vectors 1, T 1, T^2 1, ... ---------- *)
@@ -240,11 +240,11 @@ Proof.
   induction e as [|x e IH] using rev_ind; intros HF; [reflexivity|].
   apply Forall_app in HF as [HF Hx]. inversion Hx as [|? ? Hx32 _]; subst.
   unfold pm_fold in *. rewrite fold_left_app. cbn [fold_left]. rewrite IH by exact HF.
-  rewrite (step_d p Hwf). change (pm_step p ?c 0) with (T c).
+  rewrite (step_d p). change (pm_step p ?c 0) with (T c).
   rewrite rev_app_distr, app_length, Nat.add_comm. cbn [rev app length Nat.add iterl lincomb].
   rewrite (smul_embed G Hlaws) by exact Hx32.
   rewrite iterl_map.
-  rewrite (lincomb_map G Hlaws T) by
+  rewrite (lincomb_map G T) by
     (auto using T_glin, iterl_valid, valid_1; apply Forall_rev; exact HF).
   apply N.lxor_comm.
 Qed.
@@ -267,13 +267,15 @@ Qed.
 
 Lemma sparse_sub cs : forall vs, Sub (map snd (sparse cs vs)) vs.
 Proof.
-  induction cs as [|c cs IH]; intros [|v vs]; cbn [sparse map]; try constructor.
+  induction cs as [|c cs IH]; intros vs; [constructor|].
+  destruct vs as [|v vs]; [constructor|]. cbn [sparse].
   destruct (c =? 0); cbn [map snd]; constructor; apply IH.
 Qed.
 
 Lemma sparse_coefs cs : forall vs, Forall (fun x => x < 32) cs -> Forall (nzscal) (map fst (sparse cs vs)).
 Proof.
-  induction cs as [|c cs IH]; intros [|v vs] HF; cbn [sparse map]; try constructor.
+  induction cs as [|c cs IH]; intros vs HF; [constructor|].
+  destruct vs as [|v vs]; [constructor|]. cbn [sparse].
   inversion HF; subst. destruct (N.eqb_spec c 0); cbn [map fst]; [apply IH; auto|].
   constructor; [split; auto | apply IH; auto].
 Qed.
@@ -315,7 +317,7 @@ Proof.
       rewrite map_length in *.
       assert (Hv0 : Forall valid s0) by (eapply Sub_Forall; [exact Hs0 | apply iterl_valid; exact Hx]).
       assert (Hcs' : Forall (fun c => c < 32) cs) by (eapply Forall_impl; [|exact Hcs]; intros a [Ha _]; exact Ha).
-      rewrite <- (lincomb_map G Hlaws T) by (auto using T_glin).
+      rewrite <- (lincomb_map G T) by (auto using T_glin).
       intros E. apply T_inj0 in E; [|apply (lincomb_valid G Hlaws); auto].
       revert E. apply IH; auto. lia.
 Qed.
